@@ -48,6 +48,9 @@ def run(ctx):
                    "reduced-space knees map to retained points of the original curve")
     from . import rdp_model as _rm
     _rm.check_result_pairing(rc, "V5")
+    from . import c07 as _c07
+    from .common import borrow as _borrow
+    _borrow(rc, "V5", _c07._pure)
     # ---- V1 / V2: worst-knee and corner filters (shared machinery of C13) ---------------------
     sf, so = len(res.findings), len(res.obligations)
     c13._worst(rc)
